@@ -1,5 +1,5 @@
 #!/venv/bin/python
-"""tools/seeded_sweep.py [P] - re-run every seeded change against its property's current quick check (P at a time)
+"""tools/seeded_sweep.py [P] - re-run every seeded change (optionally only tags >= FROM) against its property's current quick check (P at a time)
 and refresh check.verdict_now / check.output in each meta.json."""
 import concurrent.futures as cf, glob, json, os, subprocess, sys
 os.chdir(os.path.join(os.path.dirname(os.path.abspath(__file__)), '..'))
@@ -20,5 +20,8 @@ def one(d):
 
 
 with cf.ThreadPoolExecutor(P) as ex:
-    for t, v in ex.map(one, sorted(glob.glob('seeded/*/'))):
+    dirs = sorted(glob.glob('seeded/*/'))
+    if len(sys.argv) > 2:                      # optional: only tags >= argv[2] (resume an interrupted sweep)
+        dirs = [d for d in dirs if os.path.basename(d.rstrip('/')) >= sys.argv[2]]
+    for t, v in ex.map(one, dirs):
         print(t, v, flush=True)
